@@ -55,6 +55,8 @@ pub struct SessionCfg {
     pub use_new: bool,
     pub chunk: usize,
     pub script: Vec<HAction>,
+    /// handler form (see RecProc::pform)
+    pub pform: u8,
 }
 
 #[derive(Clone, Debug)]
@@ -135,13 +137,14 @@ fn dec_calls(s: &str) -> Option<Vec<WCall>> {
 
 pub fn encode_session(cfg: &SessionCfg, ops: &[Op]) -> String {
     let mut s = format!(
-        "cmd={} hist={} prompt={} set={} new={} chunk={}",
+        "cmd={} hist={} prompt={} set={} new={} chunk={} pform={}",
         cfg.cmd,
         cfg.hist,
         cfg.prompt,
         cfg.set.name(),
         cfg.use_new as u8,
-        cfg.chunk
+        cfg.chunk,
+        cfg.pform
     );
     for a in &cfg.script {
         s.push_str(&format!(
@@ -163,7 +166,7 @@ pub fn encode_session(cfg: &SessionCfg, ops: &[Op]) -> String {
 }
 
 pub fn decode_session(s: &str) -> Option<(SessionCfg, Vec<Op>)> {
-    let mut cfg = SessionCfg { cmd: 0, hist: 0, prompt: 0, set: SetKind::Raw, use_new: false, chunk: 0, script: vec![] };
+    let mut cfg = SessionCfg { cmd: 0, hist: 0, prompt: 0, set: SetKind::Raw, use_new: false, chunk: 0, script: vec![], pform: 0 };
     let mut ops = vec![];
     let mut in_ops = false;
     for tok in s.split_whitespace() {
@@ -197,6 +200,7 @@ pub fn decode_session(s: &str) -> Option<(SessionCfg, Vec<Op>)> {
                 "set" => cfg.set = SetKind::from_name(v)?,
                 "new" => cfg.use_new = v == "1",
                 "chunk" => cfg.chunk = v.parse().ok()?,
+                "pform" => cfg.pform = v.parse().ok()?,
                 _ => return None,
             }
         }
@@ -370,7 +374,8 @@ pub fn run_session<C: Autocomplete + Help>(
     let mut hist_buf = vec![0xAAu8; cfg.hist].into_boxed_slice();
     let sink = MonSink::new();
     sink.0.borrow_mut().chunk = cfg.chunk;
-    let proc = RecProc::new(cfg.script.clone(), cfg.set.parse_fn());
+    let mut proc = RecProc::new(cfg.script.clone(), cfg.set.parse_fn());
+    proc.pform = cfg.pform;
     let mut rig: Rig<'_, C> = match Rig::build(&mut cmd_buf, &mut hist_buf, cfg.prompt, cfg.use_new, sink.clone(), proc) {
         Ok(r) => r,
         Err(e) => {
